@@ -358,4 +358,54 @@ Section Rules2.
     destruct (impl_peek ps s pos) as [t|fin|e] eqn:E; [| |exfalso; apply (T e); reflexivity];
       rewrite A; exact H.
   Qed.
+
+  (** ** single-token arguments: what the expression parser does with a character, a
+      control sequence, a specials sequence; and with the whitespace in front of
+      a character *)
+  Lemma e_finish_last ps acc nd p : e_finish ps false acc [nd] p = Ok (ONode nd) p.
+  Proof.
+    unfold e_finish. rewrite rev_app_distr. cbn [rev app].
+    destruct (acc ++ [nd]) eqn:E; [destruct acc; discriminate|]. reflexivity.
+  Qed.
+
+  Lemma rule_texpr_char n ps aps apc sterr acc pos c :
+    impl_peek (sub_context ps [UEnEnvs false]) s pos = TokOk (mk TkChar [c] pos (S pos) [] []) ->
+    R (S n) (TExpr ps aps apc false sterr acc pos) = Ok (ONode (Some (mk_chars ps pos (S pos) [c]))) (S pos).
+  Proof.
+    intros T. rewrite run_expr. unfold expr_step. rewrite next_tok_strict, T.
+    cbn [mk tk targ tpre tpos tend]. apply e_finish_last.
+  Qed.
+
+  Lemma rule_texpr_char_ws n ps apc sterr pos w ws c :
+    impl_peek (sub_context ps [UEnEnvs false]) s pos
+    = TokOk (mk TkChar [c] (pos + length (w :: ws)) (S (pos + length (w :: ws))) (w :: ws) []) ->
+    impl_peek (sub_context ps [UEnEnvs false]) s (pos + length (w :: ws))
+    = TokOk (mk TkChar [c] (pos + length (w :: ws)) (S (pos + length (w :: ws))) [] []) ->
+    R (S (S n)) (TExpr ps true apc false sterr [] pos)
+    = Ok (ONode (Some (mk_chars ps (pos + length (w :: ws)) (S (pos + length (w :: ws))) [c])))
+         (S (pos + length (w :: ws))).
+  Proof.
+    intros T1 T2. rewrite run_expr. unfold expr_step. rewrite next_tok_strict, T1.
+    cbn [mk tk targ tpre tpos tend app]. apply (rule_texpr_char n ps true apc sterr _ _ c T2).
+  Qed.
+
+  Lemma rule_texpr_macro n ps aps apc sterr pos name p0 pe pre post sp :
+    impl_peek (sub_context ps [UEnEnvs false]) s pos = TokOk (mk TkMacro name p0 pe pre post) ->
+    str_eqb name kw_begin = false -> str_eqb name kw_end = false -> get_macro_spec cx name = Some sp ->
+    R (S n) (TExpr ps aps apc false sterr [] pos)
+    = Ok (ONode (Some (NMacro p0 pe (ps_mode ps) name post (Some ([], []))))) pe.
+  Proof.
+    intros T B E SP. rewrite run_expr. unfold expr_step. rewrite next_tok_strict, T.
+    cbn [mk tk targ tpre tpos tend tpost]. rewrite B, E, SP. cbn [orb]. rewrite andb_false_r.
+    apply e_finish_last.
+  Qed.
+
+  Lemma rule_texpr_spc n ps aps apc sterr pos chars p0 pe pre :
+    impl_peek (sub_context ps [UEnEnvs false]) s pos = TokOk (mk TkSpecials chars p0 pe pre []) ->
+    R (S n) (TExpr ps aps apc false sterr [] pos)
+    = Ok (ONode (Some (NSpecials p0 pe (ps_mode ps) chars (Some ([], []))))) pe.
+  Proof.
+    intros T. rewrite run_expr. unfold expr_step. rewrite next_tok_strict, T.
+    cbn [mk tk targ tpre tpos tend tpost]. apply e_finish_last.
+  Qed.
 End Rules2.
